@@ -1,2 +1,91 @@
-/- C18 correspondence driver (stub: replaced when the property's model is built) -/
-def main : IO Unit := IO.println "stub"
+import PnVerif.Model.SizeLimits
+import PnVerif.Spec.SizeRules
+/-
+  C18 correspondence driver.  One request per line on stdin, one answer per line on stdout.
+
+    D fmt size
+        -> <defDim err> <DimOK 0|1>
+    T fmt beginVar vminfree ralign nvars { xsz isrec nd len.. }
+        -> dv=<defVar err per variable> e=<enddef err> sr=<SizeRules 0|1> br=<BeginRule 0|1>
+           b=<begin per accepted variable, definition order> brec=<begin_rec> rs=<recsize>
+           vs=<vsize field per accepted variable> len=<varp->len per accepted variable>
+
+  Variables rejected by def_var (NC_EVARSIZE) do not exist at enddef, as in the library.
+-/
+open PnVerif.SizeLimits PnVerif.Spec.SizeRules
+
+def parseVars : Nat → List String → Option (List Var)
+  | 0, _ => some []
+  | n + 1, xs :: ir :: nd :: rest =>
+    match xs.toNat?, nd.toNat? with
+    | some xsz, some nd =>
+      let ds := (rest.take nd).filterMap String.toNat?
+      if ds.length ≠ nd then none else
+      let isRec := ir != "0"
+      -- the record dimension's entry (0 = NC_UNLIMITED) is not part of the size
+      let dims := if isRec then ds.drop 1 else ds
+      match parseVars n (rest.drop nd) with
+      | some vs => some ({ xsz := xsz, isRec := isRec, dims := dims } :: vs)
+      | none => none
+    | _, _ => none
+  | _, _ => none
+
+def commaList (xs : List String) : String := if xs.isEmpty then "-" else String.intercalate "," xs
+
+/-- begins in definition order from the two per-kind lists -/
+def mergeBegins : List Var → List Nat → List Nat → List Nat
+  | [], _, _ => []
+  | v :: vs, fb, rb =>
+    if v.isRec then
+      match rb with
+      | b :: rb' => b :: mergeBegins vs fb rb'
+      | [] => []
+    else
+      match fb with
+      | b :: fb' => b :: mergeBegins vs fb' rb
+      | [] => []
+
+def doT (fmt bv vm ra nv : Nat) (l : List String) : String :=
+  match parseVars nv l with
+  | none => "bad-op"
+  | some vars =>
+    let dv := vars.map (fun v => (defVar v).1)
+    let ok := vars.filter (fun v => (defVar v).1 == 0)
+    let lay : Lay := { beginVar := bv, vMinfree := vm, rAlign := ra }
+    let r := enddef fmt lay ok
+    let sr : Nat := if decide (SizeRules fmt ok) then 1 else 0
+    let brOK : Bool :=
+      fmt != 1 ||
+      ((List.range (fixedVars ok).length).all (fun k => fixedBegin lay ok k < 2147483648) &&
+       (List.range (recVars ok).length).all (fun k => recBegin lay ok k < 2147483648))
+    let br : Nat := if brOK then 1 else 0
+    let tail := match r.2 with
+      | none => "b=- brec=- rs=-"
+      | some b =>
+        s!"b={commaList ((mergeBegins ok b.fixed b.recs).map toString)} brec={b.beginRec} rs={b.recsize}"
+    s!"dv={commaList (dv.map toString)} e={r.1} sr={sr} br={br} {tail} " ++
+    s!"vs={commaList (ok.map (fun v => toString (vsizeField fmt (varLen v))))} len={commaList (ok.map (fun v => toString (varLen v)))}"
+
+def step (line : String) : String :=
+  match (line.trimAscii.toString.splitOn " ").filter (· != "") with
+  | ["D", fmt, size] =>
+    match fmt.toNat?, size.toInt? with
+    | some f, some s =>
+      let ok : Nat := if 0 ≤ s ∧ (f ≠ 5 → s ≤ 2147483647) then 1 else 0
+      s!"{defDim f s} {ok}"
+    | _, _ => "bad-op"
+  | "T" :: fmt :: bv :: vm :: ra :: nv :: l =>
+    match fmt.toNat?, bv.toNat?, vm.toNat?, ra.toNat?, nv.toNat? with
+    | some f, some b, some m, some r, some n => doT f b m r n l
+    | _, _, _, _, _ => "bad-op"
+  | _ => "bad-op"
+
+partial def loop (h : IO.FS.Stream) (out : IO.FS.Stream) : IO Unit := do
+  let line ← h.getLine
+  if line.isEmpty then return ()
+  out.putStrLn (step line)
+  loop h out
+
+def main : IO Unit := do
+  let out ← IO.getStdout
+  loop (← IO.getStdin) out
